@@ -87,8 +87,9 @@ THEOREMS = [
 ASSUMPTIONS = [
     "HDF5 hard links are second names of one object (modelled: a link stores the target node's key); h5py object "
     "equality (`group == group`) is identity of the HDF5 object",
-    "uuid4 ids are drawn from an abstract fresh supply; no id-keeping copies inside the modelled histories (the "
-    "copy cases are checked by the implementation-side oracle only)",
+    "uuid4 ids are drawn from an abstract fresh supply; id-keeping / id-regenerating copies of arrays, tags and multi-tags "
+    "(create_*(copy_from=...)) occur in the modelled histories (Store/Copy.lean, content tables follow the duplicated nodes: "
+    "Pure/DimLinkCopy.lean); copies of whole blocks and sections are checked by the implementation-side oracle only",
     "array content is the exact rational value of the stored doubles; NumPy basic indexing with integers and one "
     "full slice is modelled by row-major offset arithmetic (Pure/DimLink.lean selectVector)",
     "data frames are modelled in the one form the generators build (float columns with distinct names, no units at all "
@@ -137,7 +138,9 @@ MANIFEST = {
                   "any frame content, is the model's linkFrameUnit / setFrameUnit. Tied to the code also by "
                   "differential execution of seeded histories on real HDF5 files (2-3 blocks with equal names, every "
                   "mutation through a random path, read back through all paths, handles kept across deletions and re-creations "
-                  "and offered to lists / roles / features, extend with members and non-members, HDF5-level dumps) and an "
+                  "and offered to lists / roles / features, copies of tags / multi-tags / arrays whose inner entities (same name and id "
+                  "as a member, living only inside the copy) are read, kept and offered likewise, extend with members and "
+                  "non-members, HDF5-level dumps) and an "
                   "implementation-side oracle that also offers handles standing for no member of the block (kept across a "
                   "deletion, entities inside a copied tag / multi-tag, entities of a deleted block; taken from the same Block "
                   "object as the list) to every list, role link and feature, assigns the value a getter returns (explicit ticks = "
@@ -150,9 +153,11 @@ MANIFEST = {
                   "set-labels, unit/label writes, array data writes, frame column writes and frame.units writes; the lift to arbitrary histories (Nix.C05.ExclusiveInvariant, kept as a statement) also needs "
                   "frame facts about append_*_dimension and the structural operations, which are only checked by the "
                   "correspondence. append_effect / linked-dimension theorems assume the fresh-key condition of the graph "
-                  "(node? nextKey = none; C03's reachable_wf provides it for reachable graphs). Id-keeping copies occur "
-                  "only in the implementation-side oracle, not in the modelled histories (the theorems hold for arbitrary "
-                  "graphs, so also for graphs with equal ids). The legacy alias layout and calibration are not modelled. Trusted: Lean kernel, standard axioms, the "
+                  "(node? nextKey = none; C03's reachable_wf provides it for reachable graphs). Copies of whole blocks / sections occur "
+                  "only in the implementation-side oracle (the theorems hold for arbitrary graphs, so also for graphs with equal "
+                  "ids; copies of arrays / tags / multi-tags are part of the modelled histories). detached_stays_detached speaks "
+                  "about the structural and handle-offering calls (dimension links do not test block membership, the property "
+                  "does not ask for it). The legacy alias layout and calibration are not modelled. Trusted: Lean kernel, standard axioms, the "
                   "correspondence harness, h5py/HDF5 hard-link semantics.",
 }
 
@@ -450,6 +455,16 @@ class Impl5(Impl):
                 return len(self.array(op[1]).dimensions)
             except AttributeError:
                 raise BadOp("no such array")
+        if kind == "copy_into":             # ["copy_into", dest block path, what, source path, name, keep_id]
+            _, dp, what, sp, name, keep = op
+            blk, src = self.nav(dp), self.nav(sp)
+            if not isinstance(blk, nixio.Block):
+                raise AttributeError("not a block")
+            make = {"data_array": "create_data_array", "tag": "create_tag", "multi_tag": "create_multi_tag"}.get(what)
+            if make is None:
+                raise AttributeError(what)
+            getattr(blk, make)(name=name, copy_from=src, keep_copy_id=keep)
+            return None
         if kind == "hold":
             e = self.nav(op[2])
             self.held[op[1]] = e
@@ -717,7 +732,7 @@ class Gen5:
         weights = {
             "links": [("append", 0.3), ("role", 0.14), ("mutate", 0.2), ("write", 0.08), ("dim", 0.12), ("unlink", 0.06),
                       ("delete", 0.04), ("feature", 0.06), ("fwrite", 0.02), ("funit", 0.04), ("handle", 0.08),
-                      ("extend", 0.05)],
+                      ("extend", 0.05), ("copy", 0.05)],
             "dims": [("dim", 0.5), ("write", 0.16), ("fwrite", 0.08), ("mutate", 0.12), ("append", 0.08), ("delete", 0.04),
                      ("role", 0.04), ("funit", 0.12), ("handle", 0.03)],
         }[self.profile]
@@ -1127,6 +1142,68 @@ class Gen5:
                 fp, _ = rng.choice(fs)
                 self.do(["set_role_h", fp, "data", h], "set_role_h/feature-data/" + tagp)
                 self.do(["role", fp, "data"])
+
+    def a_copy(self, ents, dims, feats):
+        """an id-keeping copy of a tag / multi-tag / array inside its block or into another one (`create_*(copy_from=…)`).
+        HDF5 copies what the tag links to along with it: the copy's references / positions are entities with the name
+        and id of a block's member that live only inside the copy.  They are read, kept as handles and offered to the
+        lists and role links of the block; the copy is deleted again at the end"""
+        rng = self.rng
+        kind = rng.choice(["tag", "tag", "multi_tag", "data_array"])
+        src = self.pick(ents, kind)
+        blocks = sorted({k.block for k in ents.values() if k.kind == "block"})
+        if src is None or not blocks:
+            return
+        destb = src.block if rng.random() < 0.7 else rng.choice(blocks)
+        dp = ["data", destb]
+        if kind != "data_array":
+            # the original refers to something
+            arr = self.pick(ents, "data_array", block=src.block)
+            if arr is not None and rng.random() < 0.8:
+                self.do(["append", src.paths[0], "references", {"o": self.anypath(arr)}], "append/same-block")
+        self.ncopy = getattr(self, "ncopy", 0) + 1
+        name = "cp%d" % self.ncopy
+        keep = rng.random() < 0.85
+        out = self.do(["copy_into", dp, kind, self.anypath(src), name, keep],
+                      "copy_into/%s/%s/%s" % (kind, "keep-id" if keep else "new-id", "same-block" if destb == src.block else "other-block"))
+        if "ok" not in out:
+            return
+        cp = dp + [STORE_OF[kind], name]
+        self.do(["read", cp])
+        self.do(["read", src.paths[0]])
+        strays = []
+        if kind != "data_array":
+            n = len(self.do(["list", cp, "references"]).get("ok") or [])
+            strays += [cp + ["references", i] for i in range(min(n, 2))]
+            if kind == "multi_tag":
+                strays.append(cp + ["positions"])
+        groups = [k for k in ents.values() if k.kind == "group" and k.block == destb]
+        mts = [k for k in ents.values() if k.kind == "multi_tag" and k.block == destb]
+        for sp in strays:
+            self.do(["read", sp], "read/inside-a-copy")
+            self.nh = getattr(self, "nh", 0) + 1
+            h = "h%d" % self.nh
+            if "ok" not in self.do(["hold", h, sp], "hold/inside-a-copy"):
+                continue
+            if groups:
+                g = rng.choice(groups)
+                self.do(["has_h", g.paths[0], "data_arrays", {"h": h}], "has_h/inside-a-copy")
+                if rng.random() < 0.5:
+                    self.do(["append_h", g.paths[0], "data_arrays", {"h": h}], "append_h/inside-a-copy")
+                else:
+                    member = self.pick(ents, "data_array", block=destb)
+                    keys = [{"h": h}] + ([{"o": self.anypath(member)}] if member is not None else [])
+                    rng.shuffle(keys)
+                    self.do(["extend", g.paths[0], "data_arrays", keys], "extend/inside-a-copy/%d-items" % len(keys))
+                self.do(["list", g.paths[0], "data_arrays"])
+            if mts and rng.random() < 0.6:
+                mt = rng.choice(mts)
+                role = rng.choice(["positions", "extents"])
+                self.do(["set_role_h", mt.paths[0], role, h], "set_role_h/inside-a-copy")
+                self.do(["role", mt.paths[0], role])
+        self.do(["dump"])
+        self.do(["del", dp, STORE_OF[kind], {"s": name}], "delete/copy")
+        self.do(["dump"])
 
     def a_unlink(self, ents, dims, feats):
         rng = self.rng
